@@ -508,7 +508,7 @@ class Gen:
 
     def quote(self, depth, in_quote):
         return Node('quote', blocks=self.blocks(depth + 1, in_quote=True), space=self.rng.random() < 0.8,
-                    indent=self.rng.choice((0, 0, 0, 0, 1, 2, 3)))
+                    indent=self.rng.choice((0, 0, 0, 0, 1, 2, 3)), blank_first=self.rng.random() < 0.06)
 
     def list_(self, depth, in_quote):
         rng, opt = self.rng, self.opt
@@ -783,6 +783,9 @@ class Emitter:
     def e_quote(self, nd, ctx):
         ind = self.node_indent(nd, ctx)
         inner = self.blocks(nd.blocks, 'quote')
+        if getattr(nd, 'blank_first', False) and not self.opt.canonical:
+            inner = [Line('', kind='blank')] + inner      # a quote may begin with a blank line: '>' alone (5.1)
+            self.stat('quote-begins-with-blank-line')
         out = []
         prev_text = ''
         for ln in inner:
